@@ -859,6 +859,8 @@ class Interp:
                 return ('repo', sub, attr)
             if v.name == 'emg3d':
                 return ModRef('emg3d.' + attr)
+            if v.name in ('numpy', 'np') and attr == 'newaxis':
+                return None                      # np.newaxis is None
             if v.name in ('numpy', 'np', 'math') and attr in ('inf', 'pi', 'nan', 'e'):
                 import math
                 return dict(inf=math.inf, pi=math.pi, nan=math.nan, e=math.e)[attr]
